@@ -125,3 +125,6 @@ func OFloat(r int, path string) float64
 func OStr(r int, path string) string
 func OBool(r int, path string) bool
 func OLen(r int, path string) int
+
+// OKind: dynamic kind of an interface{} value: 0 nil, 1 bool, 2 number, 3 string, 4 other.
+func OKind(r int, path string) int
